@@ -24,6 +24,7 @@ Definition out_eqb (a b : out) : bool :=
   match a, b with
   | OWatch p, OWatch q => Bool.eqb p q
   | ODrain v c, ODrain v' c' => nlist_eqb v v' && Bool.eqb c c'
+  | OEnd p, OEnd q => Bool.eqb p q
   | _, _ => false
   end.
 
@@ -64,17 +65,23 @@ Definition agree (c : case) : bool :=
 
 (* ------------------------------------------------------------------ specification checker *)
 
-(* pair every Watch call and every receive burst with what it observed *)
-Fixpoint attach (evs : list event) (obs : list out) : option (list (event * option out)) :=
+(* pair every Watch call, every receive burst and the end of the running watch (the first end-of-watch
+   event after a Watch call: that Watch call returns) with what it observed *)
+Fixpoint attach_from (w e : bool) (evs : list event) (obs : list out) : option (list (event * option out)) :=
   match evs with
   | [] => match obs with [] => Some [] | _ => None end
-  | (WatchStart as e) :: r | (Drain _ _ as e) :: r =>
-      match obs with
-      | [] => None
-      | o :: obs' => match attach r obs' with Some l => Some ((e, Some o) :: l) | None => None end
-      end
-  | e :: r => match attach r obs with Some l => Some ((e, None) :: l) | None => None end
+  | ev :: r =>
+      let w' := match ev with WatchStart => true | _ => w end in
+      let ends := match ev with EndWatch _ => w && negb e | _ => false end in
+      let observed := match ev with WatchStart | Drain _ _ => true | _ => ends end in
+      if observed then
+        match obs with
+        | [] => None
+        | o :: obs' => match attach_from w' (e || ends) r obs' with Some l => Some ((ev, Some o) :: l) | None => None end
+        end
+      else match attach_from w' e r obs with Some l => Some ((ev, None) :: l) | None => None end
   end.
+Definition attach := attach_from false false.
 
 (* The subscriber created by the k-th Subscribe, as the property describes it:
    it is handed, in order, every change on its interface that intersects its mask, into 8 slots;
@@ -115,10 +122,12 @@ Definition spec_step (k : nat) (v : view) (eo : event * option out) : view * boo
            Bool.eqb closed_seen (v_closed v && Nat.ltb (length (v_buf v)) n))
         else (v, false)
       else (v, true)
-  | (EndWatch, _) =>
+  | (EndWatch failed, o) =>
+      (* watching ends, however it ends: the channel is closed; Watch reports the failure, if any *)
       if v_started v && negb (v_ended v)
-      then (mkView (v_seen v) (v_active v) (v_iface v) (v_mask v) (v_buf v) (v_active v) true true, true)
-      else (v, true)
+      then (mkView (v_seen v) (v_active v) (v_iface v) (v_mask v) (v_buf v) (v_active v) true true,
+            match o with Some (OEnd err) => Bool.eqb err failed | _ => false end)
+      else (v, match o with None => true | Some _ => false end)
   | _ => (v, false)
   end.
 
